@@ -1,14 +1,158 @@
 (* Properties/C04.v — Time-range deletes remove exactly the range; GC is invisible to readers.
    Only statements, each closed by [exact] (short glue allowed), each followed by
-   Print Assumptions.  Model: Cesium/DeleteModel.v + GCModel.v (+ the Distance/Stamp/Store
-   models they import); proofs: Cesium/DeleteBase.v, GCProofs.v. *)
+   Print Assumptions.  Model: Cesium/DeleteModel.v + GCModel.v (and the Distance / Stamp / Store
+   models they import), with [fx = true] = the code of /repo (after the C04 fix commits) and
+   [fx = false] = the pinned upstream code.  Proofs: Cesium/DeleteBase, DeleteSearch,
+   DeleteDistance, DeleteOffsets, DeleteContent, DeleteExact, ReadExact, DeleteDB, GCProofs.
+
+   Vocabulary.  [allst P] is the sorted list of all stamps of the index channel whose domains
+   are [P]; [content G c] lists every stored sample of channel [c] with its stamp;
+   [chan_ok G c] is the storage invariant of one channel (pointers sorted, disjoint, non-empty,
+   addressing whole samples of their files, aligned with the index: as many samples as index
+   stamps in the pointer's time range); [db_ok d] says it of every channel of [d] relative to
+   its index channel.  [read_res] is DB.Read with the iterator's error exposed
+   ([read] returns the empty frame when an index look-up of the iterator fails). *)
 From Coq Require Import ZArith List Bool.
-From Synnax Require Import Cesium.Store Cesium.DeleteModel Cesium.GCModel Cesium.DeleteBase
-  Cesium.GCProofs.
+From Synnax Require Import Cesium.Store Cesium.IndexSearch Cesium.Distance Cesium.Stamp
+  Cesium.DeleteModel Cesium.GCModel Cesium.DeleteBase Cesium.DeleteSearch Cesium.DeleteDistance
+  Cesium.DeleteOffsets Cesium.DeleteContent Cesium.DeleteExact Cesium.ReadExact Cesium.DeleteDB
+  Cesium.GCProofs Cesium.DeleteCheck Cesium.DeleteRefuted.
 Import ListNotations.
 Local Open Scope Z_scope.
 
-(* ---- garbage collection ---- *)
+(* ================================================================== deletes *)
+
+(* (1) Delete offsets snap to sample boundaries, in each approximation case.  For a pointer
+   [p] aligned with the index and a target [a] inside it, whenever calculateStartOffset
+   succeeds it returns the byte offset of sample number k = #{index stamps in [start(p), a)}
+   (so exactly the samples stamped before [a] are kept), and a snapped stamp [a'] <= [a] that
+   separates the same index stamps as [a] does and lies after the domain start if anything is
+   kept.  All four exact/inexact combinations of Distance are covered by the one statement. *)
+Theorem C04_start_offset_snaps : forall P c l1 p l2 a bo a',
+  widx P -> wf_chan c -> dens_ok c -> c_ptrs c = l1 ++ p :: l2 ->
+  0 <= t_s (p_tr p) < MAXTS ->
+  zlen (ptr_samples c p) = cnt_lt (t_e (p_tr p)) (allst P) - cnt_lt (t_s (p_tr p)) (allst P) ->
+  t_s (p_tr p) <= a < t_e (p_tr p) ->
+  calc_start_offset true P c (t_s (p_tr p)) a = Ok (bo, a') ->
+  let k := cnt_lt a (allst P) - cnt_lt (t_s (p_tr p)) (allst P) in
+  0 <= k <= zlen (ptr_samples c p) /\
+  bo = bytes_of (firstn (Z.to_nat k) (ptr_samples c p)) /\
+  cnt_lt a' (allst P) = cnt_lt a (allst P) /\ a' <= a /\ (0 < k -> t_s (p_tr p) < a').
+Proof. intros. eapply calc_start_ok; eauto. Qed.
+Print Assumptions C04_start_offset_snaps.
+
+(* ... and calculateEndOffset returns the byte offset of the first sample stamped at or after
+   [b], and, if a sample is kept, a snapped stamp [b'] >= [b] inside the pointer that separates
+   the same index stamps as [b]. *)
+Theorem C04_end_offset_snaps : forall P c l1 p l2 b bo b',
+  widx P -> wf_chan c -> dens_ok c -> c_ptrs c = l1 ++ p :: l2 ->
+  0 <= t_s (p_tr p) < MAXTS ->
+  zlen (ptr_samples c p) = cnt_lt (t_e (p_tr p)) (allst P) - cnt_lt (t_s (p_tr p)) (allst P) ->
+  t_s (p_tr p) <= b < t_e (p_tr p) ->
+  calc_end_offset true P c (t_s (p_tr p)) b = Ok (bo, b') ->
+  let k := cnt_lt b (allst P) - cnt_lt (t_s (p_tr p)) (allst P) in
+  0 <= k <= zlen (ptr_samples c p) /\
+  bo = bytes_of (firstn (Z.to_nat k) (ptr_samples c p)) /\
+  (k < zlen (ptr_samples c p) ->
+     cnt_lt b' (allst P) = cnt_lt b (allst P) /\ b <= b' < t_e (p_tr p)).
+Proof. intros. eapply calc_end_ok; eauto. Qed.
+Print Assumptions C04_end_offset_snaps.
+
+(* The interface these rest on: what Distance and Stamp return when they succeed, over any
+   well-formed index, whichever return site produced the value. *)
+Theorem C04_distance_counts : forall P ds te a,
+  widx P -> ds < te -> distance P (TR ds te) true = Ok a ->
+  let k := cnt_lt te (allst P) - cnt_lt ds (allst P) in
+  da_hi a = k + (if da_se a then 0 else 1) /\ da_lo a = k - (if da_ee a then 0 else 1) /\
+  da_se a = zmem ds (allst P).
+Proof. intros P ds te a Hw Hlt Hd. destruct (distance_ok P ds te a Hw Hlt Hd) as (A & B & C & _). auto. Qed.
+Print Assumptions C04_distance_counts.
+
+Theorem C04_stamp_selects : forall P ref off st,
+  widx P -> 0 <= ref < MAXTS -> 0 <= off -> stamp P ref off true = Ok st ->
+  znth (allst P) (cnt_lt ref (allst P) + off) = Some (s_hi st) /\
+  (zmem ref (allst P) = true -> s_lo st = s_hi st).
+Proof. exact stamp_ok. Qed.
+Print Assumptions C04_stamp_selects.
+
+(* (2) One channel.  domain.DB.Delete with those resolvers, for ANY bounds a <= b (aligned or
+   not, inside domains or in gaps, spanning zero, one or many domains), on ANY channel state
+   satisfying the invariant: if it succeeds, the content afterwards is the content before
+   minus exactly the samples stamped in [a,b), and the invariant holds again — so the
+   statement applies to every later delete (repeated, nested, overlapping). *)
+Theorem C04_delete_exact_one_channel : forall P c a b c',
+  widx P -> chan_ok (allst P) c -> a <= b ->
+  dom_delete true P c (TR a b) = Ok c' ->
+  chan_ok (allst P) c' /\
+  content (allst P) c' = filter (outside_ab a b) (content (allst P) c).
+Proof. exact dom_delete_exact. Qed.
+Print Assumptions C04_delete_exact_one_channel.
+
+(* (3) Reads see exactly the content: when the index look-ups of the read succeed, the series
+   returned for [rs, re), paired with the index stamps of their time ranges, are the stored
+   (stamp, sample) pairs stamped inside [rs, re). *)
+Theorem C04_read_is_content : forall d k rs re l,
+  db_ok d -> 0 <= rs < re -> re <= MAXTS -> read_res d k (TR rs re) = Ok l ->
+  read_content (stamps_of_db d k) l = filter (inside_r rs re) (content_of d k).
+Proof. exact read_res_content. Qed.
+Print Assumptions C04_read_is_content.
+
+(* (4) The database.  DeleteTimeRange naming data channels: if it succeeds the invariant is
+   kept, every named channel loses exactly the samples stamped in [a,b), and every other
+   channel (its index included) is left as it was ... *)
+Theorem C04_delete_exact : forall d chs a b d',
+  db_ok d -> (forall k, In k chs -> is_data d k) ->
+  delete_time_range true d chs (TR a b) = (d', None) ->
+  db_ok d' /\
+  (forall k, content_of d' k = if existsb (Z.eqb k) chs then filter (outside_ab a b) (content_of d k)
+                               else content_of d k) /\
+  (forall k, stamps_of_db d' k = stamps_of_db d k) /\
+  (forall k, ~ In k chs -> alookup k d' = alookup k d).
+Proof. exact delete_data_channels_exact. Qed.
+Print Assumptions C04_delete_exact.
+
+(* ... stated on reads of arbitrary ranges: *)
+Theorem C04_reads_after_delete : forall d chs a b d' k rs re l l',
+  db_ok d -> (forall k, In k chs -> is_data d k) ->
+  delete_time_range true d chs (TR a b) = (d', None) ->
+  0 <= rs < re -> re <= MAXTS ->
+  read_res d k (TR rs re) = Ok l -> read_res d' k (TR rs re) = Ok l' ->
+  read_content (stamps_of_db d' k) l' =
+  if existsb (Z.eqb k) chs then filter (outside_ab a b) (read_content (stamps_of_db d k) l)
+  else read_content (stamps_of_db d k) l.
+Proof. exact reads_after_delete. Qed.
+Print Assumptions C04_reads_after_delete.
+
+(* (5) Channels that are not named are never modified — whatever the bounds, whether the
+   call succeeds, fails half-way (earlier channels stay deleted) or is refused. *)
+Theorem C04_unnamed_channels_untouched : forall fx d chs t d' e k,
+  delete_time_range fx d chs t = (d', e) -> ~ In k chs -> alookup k d' = alookup k d.
+Proof. exact delete_frame. Qed.
+Print Assumptions C04_unnamed_channels_untouched.
+
+(* (6) The index-channel guard: the deletion on index channel [k] is refused, and nothing
+   more is changed, exactly when some other channel indexed by [k] "has data for" the range
+   (domain-level test of the implementation) ... *)
+Theorem C04_index_guard : forall fx d k r t,
+  delete_index fx d (k :: r) t =
+  if dependants_have_data d k t then (d, Some EConflict)
+  else match delete_one fx d k t with
+       | Ok d' => delete_index fx d' r t
+       | Err e => (d, Some e)
+       end.
+Proof. exact index_guard. Qed.
+Print Assumptions C04_index_guard.
+
+(* ... which covers the property's reading: a dependant that still has a SAMPLE stamped in
+   [a,b) makes the index channel's deletion fail and leaves the database as it was. *)
+Theorem C04_index_guard_on_samples : forall d k k' c' a b ts s r fx,
+  db_ok d -> alookup k' d = Some c' -> k' <> k -> c_index c' = k -> a < b ->
+  In (ts, s) (content_of d k') -> a <= ts < b ->
+  delete_index fx d (k :: r) (TR a b) = (d, Some EConflict).
+Proof. exact index_guard_on_samples. Qed.
+Print Assumptions C04_index_guard_on_samples.
+
+(* ================================================================== garbage collection *)
 
 (* Whenever it runs, at any threshold and file-size configuration [g], on any database whose
    channels satisfy the storage invariant, a GC pass changes no read of any channel over any
@@ -43,7 +187,7 @@ Theorem C04_gc_delta_keys_disjoint : forall l1 p l2 q,
 Proof. exact sorted_split_not_contains. Qed.
 Print Assumptions C04_gc_delta_keys_disjoint.
 
-(* ---- reopen ---- *)
+(* ================================================================== reopen *)
 Theorem C04_reopen_invisible : forall d,
   (forall k b, read (reopen_db d) k b = read d k b) /\ (wf_db d -> wf_db (reopen_db d)).
 Proof.
@@ -56,3 +200,76 @@ Print Assumptions C04_reopen_invisible.
 Theorem C04_reads_see_views_only : forall d d' k b, db_equiv d d' -> read d k b = read d' k b.
 Proof. exact read_equiv. Qed.
 Print Assumptions C04_reads_see_views_only.
+
+(* The invariant is decidable, and the check is sound: this is what the correspondence
+   evaluates on every state the model reaches along every generated history (writes included),
+   so the hypotheses [db_ok] / [wf_db] above are validated on every run. *)
+Theorem C04_invariant_check_sound : forall d, db_okb d = true -> db_ok d.
+Proof. exact db_okb_ok. Qed.
+Print Assumptions C04_invariant_check_sound.
+
+(* ================================================================== the pinned code *)
+(* The model of the pinned upstream code (fx = false) does NOT satisfy the property; one
+   witness per finding, replayed on the implementation (corpus/C04/f3*.json), next to what
+   the model of /repo (fx = true, after the fix commits c5765f9 and 2a15dcc) does. *)
+
+(* F30: a successful DeleteTimeRange [1025,2000) leaves the samples stamped 1025 and 1035. *)
+Theorem C04_pinned_delete_skipped_refuted :
+  fst (after false (d30 false) [2] 1025 2000) = None /\
+  vals_of (read (snd (after false (d30 false) [2] 1025 2000)) 2 whole) =
+    [(1005, 1036, [11; 12; 13; 14]); (2000, 2011, [21; 22])].
+Proof. exact f30_pinned. Qed.
+Print Assumptions C04_pinned_delete_skipped_refuted.
+
+(* F31: after DeleteTimeRange [2011,2021) the sample stamped 2030 (outside the range) is no
+   longer returned by a read of [2021,2040). *)
+Theorem C04_pinned_end_snap_refuted :
+  fst (after false (d31 false) [2] 2011 2021) = None /\
+  vals_of (read (snd (after false (d31 false) [2] 2011 2021)) 2 (TR 2021 2040)) = [] /\
+  vals_of (read (d31 false) 2 (TR 2021 2040)) = [(2021, 2031, [14])].
+Proof. exact f31_pinned. Qed.
+Print Assumptions C04_pinned_end_snap_refuted.
+
+(* F32: after DeleteTimeRange [110,115) the sample stamped 100 (outside the range) is gone. *)
+Theorem C04_pinned_start_snap_refuted :
+  fst (after false (d32 false) [2] 110 115) = None /\
+  vals_of (read (snd (after false (d32 false) [2] 110 115)) 2 whole) = [(110, 131, [13; 14])].
+Proof. exact f32_pinned. Qed.
+Print Assumptions C04_pinned_start_snap_refuted.
+
+(* F33 / F34: well-formed deletions that the pinned code refuses with a discontinuity error. *)
+Theorem C04_pinned_spurious_refusals_refuted :
+  fst (after false (d32 false) [2] 100 105) = Some EDisc /\
+  fst (after false (d34 false) [2; 1] 100 121) = Some EDisc.
+Proof. split; [exact f33_pinned|exact f34_pinned]. Qed.
+Print Assumptions C04_pinned_spurious_refusals_refuted.
+
+(* ================================================================== non-vacuity *)
+(* A reachable database (two contiguous index domains, an int64 data channel written with
+   them) that satisfies the invariant; a deletion with non-aligned bounds that splits a domain
+   satisfies every hypothesis of C04_delete_exact / C04_reads_after_delete and is not trivial;
+   a GC pass at threshold 0 then rewrites the data file (it shrinks) and changes no read. *)
+Definition ex_d : db :=
+  run true wit_g (init_db wit_chans)
+      [wit_w 995 [1000; 1010; 1020; 1030] [11; 12; 13; 14]; wit_w 1031 [1040; 1050] [15; 16]].
+Definition ex_d' : db := snd (after true ex_d [2] 1012 1045).
+Definition ex_g0 : gcfg := GCfg 1 0.
+Definition ex_d'' : db := gc_db ex_g0 (reopen_db ex_d').
+
+Example C04_nonvacuous :
+  db_okb ex_d = true /\ (forall k, In k [2] -> is_data ex_d k) /\
+  fst (after true ex_d [2] 1012 1045) = None /\
+  vals_of (read ex_d 2 whole) = [(995, 1031, [11; 12; 13; 14]); (1031, 1051, [15; 16])] /\
+  vals_of (read ex_d' 2 whole) = [(995, 1011, [11; 12]); (1050, 1051, [16])] /\
+  db_okb ex_d' = true /\
+  match alookup 2 ex_d', alookup 2 ex_d'' with
+  | Some c, Some c'' => file_size c'' 1 < file_size c 1
+  | _, _ => False
+  end /\
+  vals_of (read ex_d'' 2 whole) = vals_of (read ex_d' 2 whole) /\
+  vals_of (read ex_d'' 2 (TR 1005 1050)) = [(1005, 1011, [12])].
+Proof.
+  split; [vm_compute; reflexivity|]. split.
+  - intros k [<-|[]]. eexists. split; [vm_compute; reflexivity|reflexivity].
+  - vm_compute. repeat split; reflexivity.
+Qed.
